@@ -79,6 +79,10 @@ pub struct Scn {
     /// one instantiates); bit 1 "leaf": reuse of a rendered leaf with a variable overridden;
     /// bit 2 "waiting-reuse": an empty <reuse> with an attribute whose first attempt fails,
     /// and a later read of that name outside it. `addon_variant` selects spellings.
+    /// also send the program to a real svgdx-server, after requests which define every probed
+    /// name at top level have been through all of its worker threads
+    #[serde(default)]
+    pub server_pass: bool,
     #[serde(default)]
     pub addons: u8,
     #[serde(default)]
@@ -128,6 +132,28 @@ fn addon_parts(scn: &Scn) -> (String, String, Vec<(String, Vec<String>)>) {
         }
         body.push_str("  <text xy=\"0 97\" text=\"FR:${vfr};\"/>\n  <rect id=\"frlater\" xy=\"0 98\" wh=\"1\"/>\n");
         expect.push(("FR:".to_string(), vec![if outer { "FR:outer;".to_string() } else { "FR:${vfr};".to_string() }]));
+    }
+    if scn.addons & 8 != 0 {
+        // attribute names which are not identifiers are variables all the same
+        let outer = v & 1 != 0;
+        if outer {
+            body.push_str("  <var data-v=\"OUT\" stroke-width=\"9\"/>\n");
+        }
+        body.push_str("  <g data-v=\"in\" stroke-width=\"7\"><text xy=\"0 94\" text=\"HY:${data-v};${stroke-width};\"/></g>\n  <text xy=\"0 95\" text=\"HZ:${data-v};${stroke-width};\"/>\n");
+        specs.push_str("    <text id=\"hyr\" xy=\"0 94\" text=\"HR:${data-v};\"/>\n");
+        body.push_str("  <reuse href=\"#hyr\" data-v=\"rin\"/>\n");
+        expect.push(("HY:".to_string(), vec!["HY:in;7;".to_string()]));
+        expect.push(("HZ:".to_string(), vec![if outer { "HZ:OUT;9;".to_string() } else { "HZ:${data-v};${stroke-width};".to_string() }]));
+        expect.push(("HR:".to_string(), vec!["HR:rin;".to_string()]));
+    }
+    if scn.addons & 16 != 0 {
+        // an empty value is a value: it shadows, and it is not "undefined"
+        body.push_str("  <var ve=\"outer\"/>\n  <g><var ve=\"\"/><text xy=\"0 93\" text=\"EM:[${ve}];\"/></g>\n  <text xy=\"0 92\" text=\"EN:[${ve}];\"/>\n  <var vt=\"\"/>\n  <text xy=\"0 91\" text=\"ET:[${vt}];\"/>\n");
+        body.push_str("  <g ve=\"\"><text xy=\"0 90\" text=\"EG:[${ve}];\"/></g>\n");
+        expect.push(("EM:".to_string(), vec!["EM:[];".to_string()]));
+        expect.push(("EN:".to_string(), vec!["EN:[outer];".to_string()]));
+        expect.push(("ET:".to_string(), vec!["ET:[];".to_string()]));
+        expect.push(("EG:".to_string(), vec!["EG:[];".to_string()]));
     }
     (specs, body, expect)
 }
@@ -772,13 +798,14 @@ impl Engine for C15 {
             defaults: index % 5 == 2,
             var_limit,
             phantom: index % 12 == 7,
-            addons: if index % 3 == 1 && var_limit.is_none() { 1 << (index / 3 % 3) } else { 0 },
-            addon_variant: (index / 9 % 32) as u8,
+            server_pass: index % 16 == 11 && var_limit.is_none(),
+            addons: if index % 3 == 1 && var_limit.is_none() { 1 << (index / 3 % 5) } else { 0 },
+            addon_variant: (index / 15 % 32) as u8,
         })
         .unwrap()
     }
 
-    fn execute(&self, scenario: &Value, _env: &WorkerEnv) -> RunResult {
+    fn execute(&self, scenario: &Value, env: &WorkerEnv) -> RunResult {
         let mut res = RunResult::default();
         let scn: Scn = match serde_json::from_value(scenario.clone()) {
             Ok(s) => s,
@@ -833,6 +860,48 @@ impl Engine for C15 {
             }
         }
         res.stats.nontrivial = retried;
+        if scn.server_pass && !scn.phantom {
+            // what the library makes of the program is what the server must make of it, whatever
+            // its worker threads have served before
+            let pollute = "<svg><var va=\"LEAK\" vb=\"LEAK\" vn=\"77\" vm=\"77\" fill=\"LEAK\" vz=\"LEAK\" vs=\"LEAK\" vt=\"LEAK\" vl=\"LEAK\" vfr=\"LEAK\" ve=\"LEAK\" data-v=\"LEAK\" stroke-width=\"LEAK\" inst=\"LEAK\"/><defaults><text va=\"DLEAK\"/></defaults><rect wh=\"1\"/></svg>";
+            match ServerChild::start(env, server_port()) {
+                Err(e) => {
+                    res.harness_error = Some(format!("svgdx-server: {e}"));
+                    return res;
+                }
+                Ok(mut srv) => {
+                    let _ = http_burst(srv.port, pollute.as_bytes(), None, 24, 3, std::time::Duration::from_secs(20));
+                    res.stats.probe("program_sent_to_a_server_with_history");
+                    let lib_obs = match &ob {
+                        Outcome::Ok(b) => observations(&String::from_utf8_lossy(b)),
+                        _ => None,
+                    };
+                    for _ in 0..6 {
+                        let h = srv.post(back.as_bytes(), None, std::time::Duration::from_secs(20));
+                        res.stats.evaluations += 1;
+                        let differs = match (&h, &ob) {
+                            (Some(h), Outcome::Ok(_)) if h.status == 200 => observations(&String::from_utf8_lossy(&h.body)) != lib_obs,
+                            (Some(h), Outcome::Err(_)) => h.status != 400,
+                            (Some(h), Outcome::Ok(b)) if b.is_empty() => h.status != 400,
+                            _ => true,
+                        };
+                        if differs {
+                            res.violation(
+                                "scoping/server-history",
+                                "c15:server-differs-from-library",
+                                format!(
+                                    "the server (after requests defining every probed name at top level) answers {:?} where the library gives {}; document:\n{}",
+                                    h.as_ref().map(|h| (h.status, shorten(&String::from_utf8_lossy(&h.body), 600))),
+                                    ob.brief(),
+                                    shorten(&back, 1500)
+                                ),
+                            );
+                            break;
+                        }
+                    }
+                }
+            }
+        }
         for (variant, out, doc) in [("back", &ob, &back), ("fwd", &of, &fwd)] {
             res.stats.outcome(out.class());
             if scn.phantom {
